@@ -476,6 +476,10 @@ func (s *Service) prepareProxyRequest(ctx context.Context, r *http.Request, targ
 	if err != nil {
 		return nil, err
 	}
+	// the target as built, not as re-parsed from its text: a '#' the client's query string carries would
+	// otherwise be taken for the start of a fragment and the rest of the query be lost
+	builtURL := *targetURL
+	proxyReq.URL = &builtURL
 
 	// Copy headers
 	headerStart := time.Now()
